@@ -186,7 +186,7 @@ fn main() {
             go(&session::E2a { focus: session::Focus::Sender, suites: session::seq_suites(false), ws: if t { vec![3, 4, 5] } else { vec![3] } }, &cfg, &mut reports, &mut replayed);
             let mut starts: Vec<u64> = (0..4).map(|d| u64::MAX - d).collect();
             starts.extend_from_slice(&[0, 254, (1 << 32) - 2, (1 << 56) - 1, u64::MAX - 5]);
-            go(&session::E2b { suites: session::seq_suites(false), starts, depth: if t { 9 } else { 5 }, letters: vec![0, 1, 10, 12, 14], label: "sender".into() }, &cfg, &mut reports, &mut replayed);
+            go(&session::E2b { suites: session::seq_suites(false), starts, depth: if t { 8 } else { 5 }, letters: vec![0, 1, 10, 12, 14], label: "sender".into() }, &cfg, &mut reports, &mut replayed);
         }
         "C05" => {
             let t = cfg.tier.thorough();
